@@ -3,7 +3,7 @@
 From Coq Require Import String List NArith Bool.
 From J5V.lib Require Import Outcome Strcase.
 From J5V.model Require Import J5sAst Desc J5sWalk J5sLink J5sConvert J5sContract J5sValid J5sEdit J5sCorr.
-From J5V.proofs Require Import J5sProofs J5sContractProofs J5sEditProofs J5sExtProofs J5sPkgExtProofs J5sC13Proofs J5sWitnessProofs.
+From J5V.proofs Require Import J5sProofs J5sContractProofs J5sEditProofs J5sExtProofs J5sExtBoolProofs J5sPkgExtProofs J5sC13Proofs J5sWitnessProofs.
 Import ListNotations.
 Local Open Scope N_scope.
 
@@ -124,9 +124,17 @@ Definition C13_full_statement : Prop :=
     compile bd pkg = Ok D ->
     exists D', compile (apply_edits bd es) pkg = Ok D' /\ files_ext D D'.
 
+(* partial: holds for edit sequences in which options are appended only to enums that already
+   have options (edit_ok inside seq_ok); see C13_append_to_empty_enum_refuted *)
 Theorem C13_full : C13_full_statement.
 Proof. exact c13_full. Qed.
 Print Assumptions C13_full.
+
+(* the boolean test the correspondence evaluates on the REAL descriptors before and after every
+   generated edit list (J5sCorr.c13_check) is sound for the embedding relation of C13_full *)
+Theorem C13_embedding_checker_sound : forall D D', files_ext_b D D' = true -> files_ext D D'.
+Proof. exact files_ext_b_sound. Qed.
+Print Assumptions C13_embedding_checker_sound.
 
 (* non-vacuity of C13_full for deep targets: four edits - a field inside the inline object of an
    array's items, an option of the inline enum inside that, a field of a nested declaration, a
@@ -137,6 +145,22 @@ Theorem C13_deep_edits_preserve :
                files_ext D D' /\ D' <> D.
 Proof. exact deep_edits_preserve. Qed.
 Print Assumptions C13_deep_edits_preserve.
+
+(* REFUTED for enums without options (known finding, replayed on the real compiler in every run):
+   `enum Status {}` compiles to STATUS_UNSPECIFIED = 0; after appending the option OLD_UNSPECIFIED
+   - which is then the first option, and a first option ending in UNSPECIFIED is the zero value -
+   value 0 is called STATUS_OLD_UNSPECIFIED.  Both versions are valid and compile; the previously
+   generated enum value changed its name.  C13_full excludes the case through seq_ok (an
+   option is appended only to an enum that has options). *)
+Theorem C13_append_to_empty_enum_refuted :
+  valid w_empty_enum = true /\ valid (apply_edits w_empty_enum w_empty_enum_edit) = true /\
+  exists D D', compile w_empty_enum (b "foo.v1") = Ok D /\
+               compile (apply_edits w_empty_enum w_empty_enum_edit) (b "foo.v1") = Ok D' /\
+               zero_value D = Some (b "STATUS_UNSPECIFIED", 0) /\
+               zero_value D' = Some (b "STATUS_OLD_UNSPECIFIED", 0) /\
+               files_ext_b D D' = false.
+Proof. exact append_to_empty_enum_renames_zero. Qed.
+Print Assumptions C13_append_to_empty_enum_refuted.
 
 (* regression example (defect repaired by 2ef7c92): `object Foo { field x object {} }` and the same
    with `field foo object {}` appended both compile, and the existing field x keeps its type *)
